@@ -1,1 +1,2 @@
 import LnnVerif.Props.C01
+import LnnVerif.Props.C04
